@@ -8,6 +8,7 @@ ROOT = os.path.dirname(os.path.dirname(os.path.abspath(__file__)))
 V = 'Verus contracts on the mechanically extracted real source (nom replaced by a contract shim)'
 NOTE_COMMON = ('Trusted: Verus/Z3, vstd; the nom 7.1.3 contract shim (assumed in Verus, validated by Kani harnesses on bounded domains); '
                'usize is 64 bit and inputs are shorter than 2^28 bytes; functions marked external_body in Verus are Kani obligations. '
+               'Message-level properties (C03, C04, C09-C16) are additionally stated on AisParser::parse (parse_msg_Cxx: the delivered message is the decoding of the transmitted payload). '
                'Every run re-extracts /repo/src, re-injects the contracts (lost anchor = exit 2) and lists all assumptions in the evidence file.')
 
 CHECKS = {
@@ -33,7 +34,7 @@ CHECKS = {
     'C08': ('proof', 'parse_nmea_sentence(line) is Ok <==> n_ok(line) and parse_ais_sentence is Ok <==> g_ok, both directions, for all byte strings, where n_ok/g_ok are the '
             'recognisers written from the property statement.', '4 C08'),
     'C09': ('proof', 'messages::parse: variant per 6-bit type (table from the property), own type field equals the six bits, every other type and the empty payload are errors; '
-            'each arm composed with the per-type postconditions.', '4 C09'),
+            'each arm composed with the per-type postconditions; at the entry point AisParser::parse a sentence delivered with decoding on carries Some(message) of the kind its own payload determines (an unsupported type is an error, never `message: None`).', '0.2 / 4 C09'),
     'C10': ('proof', 'Per type: coordinate = scale(sext(fld(off, w))) with offsets/widths from M.1371; the f32 leaves are proved to compute exactly IEEE (raw as f32) / 600000 (/600, /10, identity); '
             'signed_i32 sign extension by Kani over all widths 1..=31, offsets, contents.', '4 C10'),
     'C11': ('proof', 'Per optional field: absent exactly for the sentinel of the property\'s list, present with the transmitted value otherwise, for all raw values and all message '
@@ -44,13 +45,13 @@ CHECKS = {
             'of parse_6bit_ascii itself (ascii6 mapping + trim order) is a Kani bounded stand-in by character count; sixbit_to_ascii by Kani over all 256 inputs.', '4 C13'),
     'C14': ('proof', 'Presence conditions on 8*len in the per-type postconditions (list lengths, second station / destination, part A spare, truncated type 5, text lengths, '
             'Ok <==> mandatory part fits) for all lengths.', '4 C14'),
-    'C15': ('proof', 'Types 6/8/17: after the byte-aligned header the returned bytes are exactly orig[h..] (sequence equality), for all lengths and contents.', '4 C15'),
+    'C15': ('proof', 'Types 6/8/17: after the byte-aligned header the returned bytes are exactly orig[h..] (sequence equality), for all lengths and contents; DAC / FI (types 6, 8) and the type 17 correction header fields at their positions; at the entry point AisParser::parse the decoded payload is the transmitted one (accepted fragments are buffered exactly, the delivered payload is this group\'s concatenation).', '0.2 / 4 C15'),
     'C16': ('proof', 'SOTDMA / ITDMA contracts from M.1371 on SotdmaMessage/ItdmaMessage/SubMessage::parse and placement at bits 149..167 (selector 148) in the seven carrying types.', '4 C16'),
     'C17': ('proof', 'Frame clauses of the parse contract (rejected lines and unfragmented sentences leave the abstract state unchanged) and lemma erase over `step`.', '4 C17'),
     'C18': ('proof', 'Common specification: every contract of every other property is discharged by Verus under the std configuration and again under the alloc '
             'configuration (same extracted text, cfg-resolved), so the two builds agree on acceptance, error category and every field the contracts determine. The no-allocator build '
-            'is covered only by Kani bounded stand-ins on the real heapless code (unarmor against the same reference for n in {0,3,5}; text capacity 21 characters is an error, not a panic); '
-            'a heapless contract shim for Verus was not built.', '0.2 / 4 C18'),
+            'is covered only by Kani bounded stand-ins on the real heapless code (unarmor against the same reference for n in {0,3,5}; 2-character text; the hand-written many_m_n::<..,4>(1, ..) against the contract assumed for nom\'s; 21-character text and a full 384-byte reassembly buffer are errors, not panics; 9 per-type layout harnesses under --no-default-features); '
+            'the 119/120-byte binary capacity edge is NOT checked (harness does not finish); no Verus run of the no-allocator configuration (DESIGN 0.2 says why).', '0.2 / 4 C18'),
     'C19': ('proof', 'One Verus clause on parse_ais_sentence / parse_nmea_sentence: message_type == sixbit(first payload byte); refuted on the unchanged tree and listed as known finding D4 '
             'with its signature obligation.', '4 C19'),
 }
@@ -85,7 +86,7 @@ def main():
                   'baseline_off_cmd': 'cd /repo && cargo test --workspace --no-fail-fast --offline', 'source_commits': [], 'add_only': True},
         'engines': [
             {'name': 'verus', 'path': '/verif/check', 'serves_properties': sorted(CHECKS), 'kind_free_text': 'Verus 0.2026.09.13 on /repo/src extracted into one crate + contract shim for nom'},
-            {'name': 'kani', 'path': '/verif/lib/kleaves.py', 'serves_properties': ['C01', 'C02', 'C03', 'C07', 'C10', 'C11', 'C12', 'C13'], 'kind_free_text': 'Kani 0.68 harnesses appended to a scratch copy of the crate'},
+            {'name': 'kani', 'path': '/verif/lib/kleaves.py', 'serves_properties': ['C01', 'C02', 'C03', 'C04', 'C05', 'C06', 'C07', 'C08', 'C09', 'C10', 'C11', 'C12', 'C13', 'C14', 'C16', 'C17', 'C18', 'C19'], 'kind_free_text': 'Kani 0.68 harnesses appended to a scratch copy of the crate'},
         ],
         'checks': checks,
         'notes': 'exit 0 held / exit 1 VIOLATION / exit 2 undecided (lost anchor, rlimit, tool failure, vacuity canary). Known findings: /verif/known-findings.json.',
